@@ -70,32 +70,7 @@ def _unpack_cells(order, items, cells):
     return tuple(out)
 
 
-def _assemble(cs):
-    """Little-endian integer of byte cells; runs of bytes taken from one packed value
-    are put back together as (src div 256^i) mod 256^k (sound: src < 256^size was checked
-    when it was packed)."""
-    v = 0
-    p = 0
-    n = len(cs)
-    while p < n:
-        c = cs[p]
-        if isinstance(c, SByte):
-            k = 1
-            while (p + k < n and isinstance(cs[p+k], SByte) and cs[p+k].src is c.src
-                   and cs[p+k].idx == c.idx + k):
-                k += 1
-            if k > 1:
-                t = c.src
-                if c.idx:
-                    t = t / (1 << (8*c.idx))
-                if c.idx + k < c.size:
-                    t = t % (1 << (8*k))
-                v = v + mk_int(t) * (1 << (8*p))
-                p += k
-                continue
-        v = v + c * (1 << (8*p))
-        p += 1
-    return v
+_assemble = sym.assemble_le
 
 
 def _pack_cells(order, items, vals):
@@ -274,9 +249,38 @@ def s_int(I, args, kw):
         return SInt(zint(x))
     if isinstance(x, SBuf):
         if x.is_symbolic():
-            raise Unsupported('int() of symbolic byte string')
+            base = args[1] if len(args) > 1 else kw.get('base', 10)
+            return parse_int(x, base)
         return int(x.native(), *args[1:], **kw)
     return int(x, *args[1:], **kw)
+
+
+def parse_int(buf, base):
+    """int(bytes, base) for symbolic bytes.
+
+    Modelled only where every byte is a digit of the base (the general CPython grammar -
+    whitespace, sign, underscores, 0x prefixes - is outside the subset): a byte that can be a
+    non-digit makes the path undecided rather than guessing.
+    """
+    cs = buf.cells()
+    if not cs:
+        raise ValueError('invalid literal for int()')
+    v = 0
+    for c in cs:
+        if isinstance(c, SInt):
+            isdec = And(c >= 48, c <= min(57, 47 + base))
+            isup = And(c >= 65, c <= 54 + base) if base > 10 else False
+            islo = And(c >= 97, c <= 86 + base) if base > 10 else False
+            if not bool(Or(isdec, isup, islo)):
+                raise Unsupported('int() of a symbolic byte that may not be a digit')
+            d = sym.If(isdec, c - 48, sym.If(isup, c - 55, c - 87))
+        else:
+            ch = bytes([c])
+            if ch in b'_+- \t\n\r\x0b\x0c':
+                raise Unsupported('int() grammar beyond plain digits')
+            d = int(ch, base)   # ValueError for non-digits, as CPython
+        v = v * base + d
+    return v
 
 def s_bool(I, args, kw):
     if not args:
